@@ -1582,9 +1582,9 @@ fn main() {
         },
     );
     // ------------------------------------------------------------------------------ glob-api
-    // load_from_glob / full_reload (c10x/glob.rs): every history of the thirteen operations up to
-    // the depth bound; after every call the instance must look like a fresh one holding the state
-    // the model expects (the requested one when that is a valid set, the previous one otherwise).
+    // load_from_glob / full_reload (c10x/glob.rs): every history of the operations up to the depth
+    // bound; after every call the instance must look like a fresh one holding the state the model
+    // expects (the requested one when that is a valid set, the previous one otherwise).
     let glob_root = files_dir.join("glob");
     if run.is_supervisor() {
         globfam::Store::create(&glob_root);
@@ -1608,115 +1608,39 @@ fn main() {
             .crash_signature(|_, kind| format!("{kind}:glob-api")),
             |item, acc: &mut Acc| {
                 let store = globfam::Store::create(glob_root_ref);
-                let mut oracle = globfam::Oracle::default();
-                let labels = globfam::obs_labels();
-                struct G<'a> {
-                    store: &'a globfam::Store,
-                    oracle: &'a mut globfam::Oracle,
-                    labels: &'a [String],
-                    ops: &'a [globfam::Op],
-                    counts: BTreeMap<&'static str, u64>,
-                }
-                // executes `op` on a copy of `t`; returns the new instance and state
-                fn step(g: &mut G, acc: &mut Acc, t: &Tera, st: globfam::State, hist: &mut Vec<(globfam::Op, bool)>, op: globfam::Op, count: bool) -> (Tera, globfam::State) {
-                    let mut t2 = t.clone();
-                    let out = globfam::apply(&mut t2, g.store, op);
-                    let want_state = globfam::requested(st, op).filter(|r| g.oracle.fresh(*r).is_some());
-                    let expected_state = want_state.unwrap_or(st);
-                    hist.push((op, out.is_ok()));
-                    let case = |extra: Json| {
-                        let mut j = json!({
-                            "family": "glob-api",
-                            "history": hist.iter().map(|(o, ok)| { let mut j = globfam::op_json(*o); j.as_object_mut().unwrap().insert("returned".into(), json!(if *ok { "Ok" } else { "Err" })); j }).collect::<Vec<_>>(),
-                            "state_before_last_call": st.json(),
-                            "expected_state_after": expected_state.json(),
-                        });
-                        j.as_object_mut().unwrap().insert("details".into(), extra);
-                        j
-                    };
-                    let opname = match op {
-                        globfam::Op::Glob(_) | globfam::Op::NoStar | globfam::Op::Unbuildable | globfam::Op::MatchesNothing => "load_from_glob",
-                        globfam::Op::Reload => "full_reload",
-                        globfam::Op::Manual(_) => "add_raw_template",
-                    };
-                    let mut class: &'static str = if out.is_ok() { "accepted" } else { "refused" };
-                    match (&out, want_state.is_some()) {
-                        (Out::Panic(p), _) => {
-                            acc.violation(format!("glob-api:panic:{opname}"), format!("{opname} panicked: {p}"), || case(json!({})));
-                            class = "panic";
-                        }
-                        (Out::Ok(_), false) => {
-                            acc.violation(format!("glob-api:accepted-invalid:{opname}"), format!("{opname} returned Ok although the requested template set is refused by a fresh instance (or the call cannot succeed)"), || case(json!({})));
-                            class = "wrongly-accepted";
-                        }
-                        (Out::Err(..), true) => {
-                            acc.violation(format!("glob-api:refused-valid:{opname}"), format!("{opname} failed ({}) although a fresh instance accepts the requested template set", out.show()), || case(json!({})));
-                            class = "wrongly-refused";
-                        }
-                        _ => {}
-                    }
-                    let obs = globfam::observe(&t2);
-                    let want = g.oracle.fresh(expected_state).clone().expect("the expected state is valid by construction");
-                    if obs != want {
-                        let i = (0..obs.len()).find(|i| obs[*i] != want[*i]).unwrap();
-                        let what = if out.is_ok() { "after-accepted" } else { "after-refused" };
-                        acc.violation(
-                            format!("glob-api:{what}:{opname}:{}", g.labels[i].split('(').next().unwrap_or("")),
-                            format!("after {opname} returned {}, {} gives {} but a fresh instance holding the expected state gives {}", if out.is_ok() { "Ok" } else { "Err" }, g.labels[i], obs[i], want[i]),
-                            || case(json!({"differences": (0..obs.len()).filter(|i| obs[*i] != want[*i]).map(|i| json!({"call": g.labels[i], "observed": obs[i], "fresh_instance": want[i]})).collect::<Vec<_>>()})),
-                        );
-                        class = "wrong-observation";
-                    }
-                    if count {
-                        acc.case(true, class);
-                        let nonempty = st != globfam::State::default();
-                        let key: &'static str = match (out.is_ok(), nonempty) {
-                            (true, _) => "glob_api_ok",
-                            (false, true) => "glob_api_err_on_nonempty",
-                            (false, false) => "glob_api_err_on_empty",
-                        };
-                        *g.counts.entry(key).or_insert(0) += 1;
-                        if !out.is_ok() && st.glob != 0 && matches!(op, globfam::Op::Glob(_) | globfam::Op::NoStar | globfam::Op::Unbuildable) {
-                            *g.counts.entry("glob_api_refused_load_over_loaded_glob").or_insert(0) += 1;
-                        }
-                        if matches!(op, globfam::Op::Reload) && out.is_ok() && hist.iter().rev().skip(1).any(|(_, ok)| !ok) {
-                            *g.counts.entry("glob_api_reload_after_refused_call").or_insert(0) += 1;
-                        }
-                    }
-                    (t2, expected_state)
-                }
-                fn dfs(g: &mut G, acc: &mut Acc, t: &Tera, st: globfam::State, hist: &mut Vec<(globfam::Op, bool)>, left: u32) {
-                    if left == 0 {
-                        return;
-                    }
-                    for i in 0..g.ops.len() {
-                        let op = g.ops[i];
-                        let (t2, st2) = step(g, acc, t, st, hist, op, true);
-                        dfs(g, acc, &t2, st2, hist, left - 1);
-                        hist.pop();
-                    }
-                }
-                let mut g = G { store: &store, oracle: &mut oracle, labels: &labels, ops: gops_ref, counts: BTreeMap::new() };
-                let (o1, o2) = (gops_ref[(item / n) as usize], gops_ref[(item % n) as usize]);
-                let mut hist = vec![];
-                let t0 = Tera::default();
-                // the first call is counted once (by the item whose second call is operation 0)
-                let (t1, s1) = step(&mut g, acc, &t0, globfam::State::default(), &mut hist, o1, item % n == 0);
-                let (t2, s2) = step(&mut g, acc, &t1, s1, &mut hist, o2, true);
-                dfs(&mut g, acc, &t2, s2, &mut hist, gdepth - 2);
-                for (k, v) in g.counts {
-                    acc.count(k, v);
-                }
+                globfam::Explorer::new("glob-api", &store, gops_ref).run_item(acc, item, gdepth);
+            },
+        );
+        // the files change between the calls
+        let cops = globfam::changing_ops();
+        let cn = cops.len() as u64;
+        let cdepth: u32 = if thorough { 7 } else { 6 };
+        let cops_ref = &cops;
+        run.family(
+            Family::new(
+                "glob-api-changing-files",
+                cn * cn,
+                &format!(
+                    "ALL histories of length <= {cdepth} over {cn} operations (two file changes in a row count as one): the files of a directory private to the worker change between the calls (5 variants: valid, a file stopped parsing, a file removed, no file at all, valid with other content); load_from_glob of that directory and of a fixed one, full_reload, a refused pattern, a manual template including one of the glob's files. Same oracle after every engine call: a reload can be refused (nothing changes, the glob stays) and must work again once the files are repaired; a glob that finds no file at all still has to leave a valid set"
+                ),
+            )
+            .describe(|item| json!({"api": "load_from_glob / full_reload over changing files", "history_prefix": [globfam::op_json(cops_ref[(item / cn) as usize]), globfam::op_json(cops_ref[(item % cn) as usize])], "note": "every continuation of this prefix up to the depth bound is executed inside the item"}))
+            .crash_signature(|_, kind| format!("{kind}:glob-api-changing-files")),
+            |item, acc: &mut Acc| {
+                let store = globfam::Store::create(glob_root_ref);
+                globfam::Explorer::new("glob-api-changing-files", &store, cops_ref).run_item(acc, item, cdepth);
             },
         );
     }
     if run.is_supervisor() {
         let c = |n: &str| run.counter(n);
-        let (ok, err, over, reload) = (c("glob_api_ok"), c("glob_api_err_on_nonempty"), c("glob_api_refused_load_over_loaded_glob"), c("glob_api_reload_after_refused_call"));
+        let (ok, err, over, reload, refused_reload) = (c("glob_api_ok"), c("glob_api_err_on_nonempty"), c("glob_api_refused_load_over_loaded_glob"), c("glob_api_reload_after_refused_call"), c("glob_api_refused_reload_of_a_loaded_glob"));
+        let empty = c("glob_api_err_on_empty");
+        run.extra("glob_api_transitions_validated_against_fresh_instances", json!(ok + err + empty));
         run.guard(
             "glob-api-both-outcomes",
-            ok > 100 && err > 100 && over > 100 && reload > 10,
-            format!("accepted={ok} refused on an instance holding templates={err}, of which refused load_from_glob over a loaded glob={over}; accepted full_reload after a refused call={reload}"),
+            ok > 100 && err > 100 && over > 100 && reload > 10 && refused_reload > 10,
+            format!("accepted={ok} refused on an instance holding templates={err}, of which refused load_from_glob over a loaded glob={over}, refused full_reload of a loaded glob={refused_reload}; accepted full_reload after a refused call={reload}"),
         );
     }
     if run.is_supervisor() {
